@@ -234,6 +234,9 @@ func checkC12(c *Ctx) {
 	c.checkCalculateSize("O6 calculate-size")
 	// ---- O7 what is sized is what is emitted: shared tag slices are never appended to in place ------
 	c.checkSharedTagSlices("O7 shared-tags")
+	// the common tags freeBytes was computed from are the common tags every datagram carries: a published
+	// tag slice never goes back to a pool (shared with C13 O8)
+	c.checkPublishedNotRecycled("O7 published-not-recycled")
 	c.checkOwnResourcePool("O8 own-resource-pool")
 }
 
